@@ -24,6 +24,11 @@ AllLeaves == CASE G = "G12" -> (IF NV = 1 THEN LeavesG1 ELSE LeavesG2(NV))
                [] G = "G3v" -> << PredC("p_lt", <<At(V(2), "m"), At(V(3), "n")>>, "fn"), InC(V(2), At(V(1), "refs"), "contains"),
                                   CmpC("eq", At(V(1), "n"), LitI(0)), CmpC("ge", At(V(3), "m"), At(V(2), "m")),
                                   CmpC("eq", At(V(1), "n"), At(V(3), "m")), CmpC("lt", At(V(2), "n"), At(V(1), "m")) >>
+               \* four leaves over the variable sets {1,2}, {1,3}, {1}, {1,3}, each used at most once in a tree: a conjunction of
+               \* two disjunctions leaves results in the conjunction's cache under a partial binding (variable 3 unbound) next
+               \* to results under a full one, and later lookups match both
+               [] G = "G3w" -> << CmpC("ne", At(V(1), "n"), At(V(2), "m")), CmpC("eq", At(V(1), "m"), At(V(3), "m")),
+                                  CmpC("eq", At(V(1), "n"), LitI(1)), CmpC("lt", At(V(1), "m"), At(V(3), "n")) >>
                \* variables compared directly (not through an attribute), for pools of queries that share their variables
                [] G = "G3s" -> << CmpC("ge", At(V(1), "n"), LitI(1)), CmpC("eq", V(2), At(V(3), "ref")),
                                   CmpC("lt", At(V(2), "n"), LitI(2)), CmpC("gt", At(V(1), "n"), At(V(2), "n")),
@@ -55,6 +60,7 @@ Selections ==
     \* the selected value may be any value, the falsy members of its sort and None included
     [] G = "G1s" -> << Sel("entity", <<At(V(1), "o")>>), Sel("entity", <<At(V(1), "n")>>), Sel("set_of", <<At(V(1), "o")>>),
                        Sel("entity", <<At(V(1), "s")>>), Sel("set_of", <<At(V(1), "o"), V(1)>>) >>
+    [] G = "G3w" -> << Sel("set_of", <<V(1), V(2), V(3)>>), Sel("set_of", <<V(2), V(3)>>) >>
     [] G = "G3v" -> << Sel("set_of", <<V(3), V(1)>>), Sel("set_of", <<V(1), V(2), V(3)>>), Sel("entity", <<V(2)>>) >>
     [] G = "G12" ->
        (IF NV = 1 THEN << Sel("entity", <<V(1)>>) >>
@@ -86,7 +92,12 @@ Total == FoldLeft(LAMBDA acc, c : acc + NLeaves(c), 0, stack)
 Top == stack[Len(stack)]
 Pop(n) == SubSeq(stack, 1, Len(stack) - n)
 
+RECURSIVE UsesLeaf(_, _)
+UsesLeaf(c, lf) == CASE c.k \in {"and", "or"} -> UsesLeaf(c.l, lf) \/ UsesLeaf(c.r, lf)
+                     [] c.k \in {"not", "forall"} -> UsesLeaf(c.c, lf)
+                     [] OTHER -> c = lf
 PushLeaf(j) == /\ done = <<>> /\ Total < MaxLeaves
+               /\ (G = "G3w" => \A i \in 1..Len(stack) : ~UsesLeaf(stack[i], Leaves[j]))
                /\ stack' = Append(stack, Leaves[j]) /\ UNCHANGED done
 ApplyNot(form) == /\ done = <<>> /\ stack # <<>> /\ NotDepth(Top) < MaxNot /\ Top.k # "forall" /\ ~HasSub(Top)
                   /\ stack' = Append(Pop(1), NotC(Top, form)) /\ UNCHANGED done
